@@ -24,6 +24,32 @@ func main() {
 		cmdBaseline(os.Args[2:])
 	case "list":
 		cmdList(os.Args[2:])
+	case "wire":
+		p := mustLoad()
+		verbose := false
+		want := map[string]bool{}
+		for _, a := range os.Args[2:] {
+			if a == "-v" {
+				verbose = true
+			} else {
+				want[a] = true
+			}
+		}
+		counts := map[string]int{}
+		for _, pr := range p.wirePairs() {
+			if len(want) > 0 && !want[pr.Type] {
+				continue
+			}
+			v := p.wireCheck(pr)
+			counts[v.Status]++
+			fmt.Printf("%-8s %s %s\n", v.Status, v.Type, v.Detail)
+			if verbose {
+				for _, ver := range v.Points {
+					fmt.Printf("    v%d: %s\n", ver, v.Shapes[ver])
+				}
+			}
+		}
+		fmt.Println(counts)
 	case "modset":
 		p := mustLoad()
 		for _, k := range os.Args[2:] {
